@@ -8,7 +8,9 @@ Property oracle (on the implementation only, independent of Lean and of rdflib.c
     (hext: both sides first mapped through the RDF 1.1 identification simple literal = xsd:string),
     and every serialisation returns (per-format watchdog; the core watchdog backs it up).
 Violation tags:  rt-<fmt> (graph differs), ser-<fmt> (serializer raised), parse-<fmt> (rdflib cannot read its own
-output), hang-<fmt> (no return within FMT_TIMEOUT_S), timeout (core watchdog).
+output), hang-<fmt> (no return within FMT_TIMEOUT_S), timeout (core watchdog); rt2-/ser2-/parse2-/hang2-<fmt> for the
+second round of a two-round case ("round2": the same Graph object is serialised again after one of the prefixes the
+first round generated or used has been re-bound to another namespace and a triple in that namespace was added).
 
 Observations compared with the Lean model (lean/RV/C03/Drive.lean).  All of them are taken from PUBLIC behaviour
 (serializer output of one-triple graphs, reader results), none from private state:
@@ -466,6 +468,9 @@ def run_impl(case):
             done += 1
         else:
             viol.append(f"{st}-{fmt}: {detail}")
+    r2 = case.get("round2")
+    if r2:
+        viol += _round2(g, spec, r2, fmts, stats)
     probe = _probe(spec) + _hext_probe(spec) + _ntline_probe(spec)
     sprobe = _struct_probe(spec)
     obs = [exp for _l, exp, _p in probe] + [exp for _l, exp in sprobe]
@@ -482,11 +487,50 @@ def run_impl(case):
     return {"obs": obs, "viol": viol, "nontrivial": bool(orig) and done >= min(6, len(fmts)), "key": key, "stats": stats}
 
 
+def _round2(g, spec, r2, fmts, stats):
+    """Second round on the SAME graph object: re-bind a prefix that the first round generated (ns1, ns2, …) or that
+    the case bound itself and that some IRI of the graph uses, to another namespace; add a triple whose predicate
+    lives there; serialise and parse again in every format.  Both rounds must round-trip (tags rt2-/ser2-/parse2-/hang2-)."""
+    import re
+    iris = {str(x) for t in g for x in t if isinstance(x, URIRef)}
+    own = {p for p, _ns in spec.get("prefixes", []) if p}
+    cands = sorted(p for p, ns in g.namespaces()
+                   if (re.match(r"ns\d+\Z", p) or p in own) and any(i.startswith(str(ns)) for i in iris))
+    if not cands:
+        stats["round2_no_candidate"] = stats.get("round2_no_candidate", 0) + 1
+        return []
+    # generated prefixes first: they are the ones a serializer memoised a qname for
+    cands.sort(key=lambda p: (0 if re.match(r"ns\d+\Z", p) else 1, p))
+    prefix = cands[r2["pick"] % len(cands)]
+    stats["round2"] = stats.get("round2", 0) + 1
+    stats["round2_generated_prefix"] = stats.get("round2_generated_prefix", 0) + int(bool(re.match(r"ns\d+\Z", prefix)))
+    if r2["mode"] == "replace":
+        g.bind(prefix, URIRef(r2["ns"]), replace=True)
+    else:
+        g.bind(prefix, URIRef(r2["ns"]))
+    g.add((gg.term(r2["subj"]), URIRef(r2["ns"] + r2["local"]), gg.term(r2["obj"])))
+    orig2 = set(g)
+    spec2 = {**spec, "triples": spec["triples"] + [[r2["subj"], ["i", r2["ns"] + r2["local"]], r2["obj"]]]}
+    xml_ok, _why = gg.xml_expressible(spec2)
+    out = []
+    for fmt in fmts:
+        if fmt in ("xml", "pretty-xml") and not xml_ok:
+            continue
+        st, detail, _text = roundtrip(g, fmt, spec.get("base"), orig2)
+        stats[f"{st}2_{fmt}"] = stats.get(f"{st}2_{fmt}", 0) + 1
+        if st != "ok":
+            out.append(f"{st}2-{fmt}: after re-binding prefix {prefix!r} to <{r2['ns']}> ({r2['mode']}): {detail}")
+    return out
+
+
 def gen_case(rng, tier, i):
     r = rng.random()
     profile = "mixed" if r < 0.5 else ("lists" if r < 0.7 else ("literals" if r < 0.85 else ("bnodes" if r < 0.95 else "ground")))
     lists = "all" if rng.random() < 0.6 else "proper"
-    return {"spec": gg.gen_spec(rng, profile=profile, lists=lists)}
+    case = {"spec": gg.gen_spec(rng, profile=profile, lists=lists)}
+    if rng.random() < 0.15:
+        case["round2"] = gg.gen_round2(rng, case["spec"])
+    return case
 
 
 def model_lines(case):
@@ -511,6 +555,8 @@ def select_model_obs(case, out):
 
 
 def shrink(case):
+    if case.get("round2"):
+        yield {k: v for k, v in case.items() if k != "round2"}
     fm = case.get("fmts") or FORMATS
     if len(fm) > 1:
         for f in fm:
@@ -608,7 +654,16 @@ def _matcher(name):
         viol = result.get("viol", [])
         if not viol:
             return False
-        if not all(any(f(spec, v) for f in _EXPLAIN.values()) for v in viol):
+
+        def explained(v):
+            t = _tag(v)
+            m2 = _re.match(r"(rt|ser|parse|hang)2-(.*)", t)
+            if m2:  # second round of a two-round case: only the SAME listed failure persisting from round one
+                t1 = f"{m2.group(1)}-{m2.group(2)}"
+                return any(_tag(w) == t1 and any(f(spec, w) for f in _EXPLAIN.values()) for w in viol)
+            return any(f(spec, v) for f in _EXPLAIN.values())
+
+        if not all(explained(v) for v in viol):
             return False
         return any(_EXPLAIN[name](spec, v) for v in viol)
     m.__doc__ = _EXPLAIN[name].__doc__
